@@ -15,8 +15,8 @@ pub static DEF: PropDef = PropDef {
     level: "fault_enumeration",
     rule: "each case: a valid call history H (random conformant tree, known/unknown/explicit-width masters, random Full collapsing; histories with a failing call are discarded) and one failure kind; the failing call(s) are inserted at EVERY position of H (quick: every position of histories up to 14 calls, else 8 random positions; thorough: every position) and H+ is run on a fresh writer to completion incl. into_inner(). Failure kinds: misplaced leaf / misplaced master Start / Utf8-Binary too long for the requested width / Full master too big for its width / unknown size on a leaf (both APIs) / malformed raw id / End of a master that is not innermost or with nothing open / Full containing an invalid child at depth 1-3 after 0-k valid children / two or three failing calls in a row. Oracle: inserted calls that return Ok are not failing calls (position is vacuous); otherwise every original call must return the same result kind as in H, into_inner() must end the same way, and the destination bytes must be identical. distinct = (failure kind, shadow-stack shape at the insertion point); non-trivial iff the shadow stack was non-empty at the insertion point.",
     assumptions: &["I/O errors are outside the property and not injected here", "a candidate failing call that the writer accepts is not a C19 case (acceptance is C11's subject); such positions are counted as vacuous"],
-    cases_quick: 2500,
-    cases_thorough: 60_000,
+    cases_quick: 80_000,
+    cases_thorough: 500_000,
     floors: &[("insertions_compared", 8000), ("distinct_nontrivial", 60), ("kinds_misplaced-leaf", 200), ("kinds_width-overflow-leaf", 200), ("kinds_wrong-end", 200), ("kinds_full-invalid-child", 200), ("kinds_unknown-on-leaf", 200), ("kinds_bad-raw-id", 200), ("kinds_full-width-overflow", 100)],
     exhaustive_note: Some("insertion positions 0..=len(H) of each generated history (all of them in thorough; all of them for histories of <=14 calls in quick)"),
     run,
